@@ -63,7 +63,9 @@ where
 
     /// Returns the number of opened streams in the `dir` direction.
     fn opened_streams(&self, dir: Dir) -> u64 {
-        self.unallocated[dir as usize]
+        // after a 0-RTT rejection the limit can shrink below what was already allocated:
+        // only the streams below the limit in force are open as far as the peer is concerned
+        self.unallocated[dir as usize].min(self.max[dir as usize])
     }
 
     /// Receive the [`MaxStreamsFrame`](`crate::frame::MaxStreamsFrame`) from peer,
